@@ -479,6 +479,42 @@ func c12WholeLists(c *Ctx, rule string) {
 	for _, h := range []string{"excludeLabel", "includeLabel", "maybeIncludeLabel", "guaranteeLabel", "restrictIncludedLabels", "restrictGuaranteedLabels"} {
 		helpers["internal/parser/utils."+h] = true
 	}
+	// wrappers of those helpers (a function of the package that hands its own name list, or the
+	// names in it one by one, to a helper) are helpers too
+	for round := 0; round < 2; round++ {
+		for _, hf := range p.AllFuncs() {
+			if hf.Pkg != up || hf.Decl.Body == nil || helpers[hf.Name] || p.IsTestFile(hf.Decl.Pos()) {
+				continue
+			}
+			sig := hf.Obj.Type().(*types.Signature)
+			if sig.Params().Len() == 0 {
+				continue
+			}
+			last := sig.Params().At(sig.Params().Len() - 1)
+			if last.Type().String() != "[]string" {
+				continue
+			}
+			elems := map[types.Object]bool{types.Object(last): true}
+			ast.Inspect(hf.Decl.Body, func(nd ast.Node) bool {
+				if rs, ok := nd.(*ast.RangeStmt); ok && objOf(info, rs.X) == types.Object(last) && rs.Value != nil {
+					elems[objOf(info, rs.Value)] = true
+				}
+				return true
+			})
+			ast.Inspect(hf.Decl.Body, func(nd ast.Node) bool {
+				if call, ok := nd.(*ast.CallExpr); ok {
+					if fn := Callee(info, call); fn != nil && helpers[funcQName(fn)] {
+						for _, a := range call.Args {
+							if o := objOf(info, a); o != nil && elems[o] {
+								helpers[hf.Name] = true
+							}
+						}
+					}
+				}
+				return true
+			})
+		}
+	}
 	n := 0
 	for _, fname := range []string{"parseAggregation", "parseBinOps", "walkAggregation"} {
 		fi := c.MustFunc(rule, "internal/parser/utils."+fname)
@@ -1328,4 +1364,207 @@ func c04SetAppend(c *Ctx, rule string) {
 	})
 	c.Check(n >= 1 && bad == "", rule, "appendToSlice:never adds an element that is already there", fi.Decl.Pos(), itoa(n)+" append(s), each under !slices.Contains(dst, v)",
 		"appendToSlice can store a duplicate ("+bad+"): the label lists are treated as sets everywhere else (one removal per name), so a label listed twice in without(...)/ignoring(...) stays excluded after a later step re-adds it")
+}
+
+// c04ListHelpersOwnResult: what appendToSlice / removeFromSlice hand back is the
+// first list (grown, cloned or as it is), nil, or fresh storage — never another
+// parameter (the names passed in are the parsed query's own on(...)/by(...)
+// list), and never a two-index reslice of the first list (which keeps the
+// caller's spare capacity: the next append writes into the caller's array).
+// And restrictIncludedLabels / restrictGuaranteedLabels have no exit in front
+// of the loop that filters the list, except for an empty list.
+func c04ListHelpersOwnResult(c *Ctx, rule string) {
+	for _, h := range []string{"internal/parser/utils.appendToSlice", "internal/parser/utils.removeFromSlice"} {
+		hf := c.MustFunc(rule, h)
+		if hf == nil {
+			continue
+		}
+		info := hf.Pkg.TypesInfo
+		sig := hf.Obj.Type().(*types.Signature)
+		others := map[types.Object]bool{}
+		for i := 1; i < sig.Params().Len(); i++ {
+			others[sig.Params().At(i)] = true
+		}
+		first := paramObj(hf, 0)
+		foreign, reslice := "", ""
+		for _, r := range returnsIn(hf.Decl.Body.List) {
+			for _, e := range r.Results {
+				x := ast.Unparen(e)
+				if se, ok := x.(*ast.SliceExpr); ok {
+					x = ast.Unparen(se.X)
+				}
+				if id, ok := x.(*ast.Ident); ok && others[info.Uses[id]] {
+					foreign = exprStr(e)
+				}
+			}
+		}
+		ast.Inspect(hf.Decl.Body, func(n ast.Node) bool {
+			switch x := n.(type) {
+			case *ast.AssignStmt:
+				// first = <other parameter>
+				for i, l := range x.Lhs {
+					if isObj(info, l, first) && i < len(x.Rhs) {
+						r := ast.Unparen(x.Rhs[i])
+						if se, ok := r.(*ast.SliceExpr); ok {
+							r = ast.Unparen(se.X)
+						}
+						if id, ok := r.(*ast.Ident); ok && others[info.Uses[id]] {
+							foreign = exprStr(x)
+						}
+					}
+				}
+			case *ast.SliceExpr:
+				if isObj(info, x.X, first) && !x.Slice3 {
+					reslice = exprStr(x)
+				}
+			}
+			return true
+		})
+		c.Check(foreign == "", rule, hf.Obj.Name()+":result is never another argument's storage", hf.Decl.Pos(), "grows out of the first list",
+			"`"+foreign+"` hands back the list of names it was given: for on(...)/by(...)/without(...) that is the parsed query's own label list, so the Source shares it and a later edit of the Source rewrites the query every other check walks")
+		c.Check(reslice == "", rule, hf.Obj.Name()+":no reslice that keeps the caller's spare capacity", hf.Decl.Pos(), "clone or three-index slice",
+			"`"+reslice+"` keeps the backing array and its spare capacity: the next append to the result overwrites an element the caller (another copy of the Source, or the parsed query) still reads")
+	}
+	for _, pair := range [][2]string{{"restrictIncludedLabels", "IncludedLabels"}, {"restrictGuaranteedLabels", "GuaranteedLabels"}} {
+		fi := c.MustFunc(rule, "internal/parser/utils."+pair[0])
+		if fi == nil {
+			continue
+		}
+		info := fi.Pkg.TypesInfo
+		pm := parentMap(fi.Decl.Body)
+		var loop *ast.RangeStmt
+		ast.Inspect(fi.Decl.Body, func(n ast.Node) bool {
+			if rs, ok := n.(*ast.RangeStmt); ok && loop == nil && fieldSel(info, rs.X, qSource, pair[1]) {
+				loop = rs
+			}
+			return true
+		})
+		if loop == nil {
+			// another shape (slices.DeleteFunc on a clone, …): not decided here
+			c.Ok(rule, pair[0]+":no exit in front of the filter", fi.Decl.Pos(), "no range loop over the list; rule not applicable")
+			continue
+		}
+		bad := ""
+		for _, r := range returnsIn(fi.Decl.Body.List) {
+			if r.Pos() > loop.Pos() {
+				continue
+			}
+			okEmpty := false
+			for _, g := range lexicalGuards(pm, r, fi.Decl.Body) {
+				txt := roleStr(info, g.E)
+				if g.Truth && (strings.Contains(txt, "len(") && strings.Contains(txt, "== 0") || strings.Contains(txt, "== nil")) && strings.Contains(exprStr(g.E), pair[1]) {
+					okEmpty = true
+				}
+			}
+			if !okEmpty {
+				bad = "return at " + c.P.Pos(r.Pos())
+			}
+		}
+		c.Check(bad == "", rule, pair[0]+":no exit in front of the filter", fi.Decl.Pos(), "every listed label is compared with the allowed names",
+			bad+" leaves "+pair[0]+" before the list was filtered: labels that by(...)/on(...) removed stay possible (or guaranteed), so a later on(x) join is judged on labels the operands cannot have and a live branch is reported dead")
+	}
+}
+
+// c12OnLabelsOnlyIfPossible: matching on a label does not create it. The labels
+// named by on(...) are re-admitted to the result of a binary operation (taken
+// off ExcludedLabels, put on IncludedLabels) only for names the operand could
+// have before the operation: `sum without(a)(x) + on(a) sum without(a)(y)` has
+// no `a`, and an outer `… and on(a) sum without(a)(z)` joins on the missing
+// label. Every call of an un-excluding helper (includeLabel, guaranteeLabel)
+// that is fed from VectorMatching.MatchingLabels — directly, or through the
+// name parameter of a helper of this package — therefore stands under
+// `<operand>.CanHaveLabel(name)` for the very name it re-admits.
+func c12OnLabelsOnlyIfPossible(c *Ctx, rule string) {
+	p := c.P
+	up := p.Pkg("internal/parser/utils")
+	if up == nil {
+		return
+	}
+	info := up.TypesInfo
+	unexclude := map[string]bool{"internal/parser/utils.includeLabel": true, "internal/parser/utils.guaranteeLabel": true}
+	isMatching := func(e ast.Expr) bool {
+		return fieldSel(info, e, "github.com/prometheus/prometheus/promql/parser.VectorMatching", "MatchingLabels")
+	}
+	// guarded(call, nameObj): call stands under X.CanHaveLabel(name) == true for that name
+	guarded := func(fi *FuncInfo, call *ast.CallExpr, name types.Object) bool {
+		for _, g := range lexicalGuards(parentMap(fi.Decl.Body), call, fi.Decl.Body) {
+			gc, ok := ast.Unparen(g.E).(*ast.CallExpr)
+			if !ok || !g.Truth || len(gc.Args) != 1 {
+				continue
+			}
+			if fn := Callee(info, gc); fn != nil && fn.Name() == "CanHaveLabel" && objOf(info, gc.Args[0]) == name && name != nil {
+				return true
+			}
+		}
+		return false
+	}
+	n := 0
+	var visit func(fi *FuncInfo, names types.Object, depth int)
+	// names == nil: look for MatchingLabels expressions; else: look for uses of the parameter `names`
+	visit = func(fi *FuncInfo, names types.Object, depth int) {
+		if depth > 3 || fi.Decl.Body == nil {
+			return
+		}
+		fromList := func(e ast.Expr) bool {
+			if names == nil {
+				return isMatching(e)
+			}
+			return objOf(info, e) == names
+		}
+		// element variables of loops over the list
+		elems := map[types.Object]bool{}
+		ast.Inspect(fi.Decl.Body, func(nd ast.Node) bool {
+			if rs, ok := nd.(*ast.RangeStmt); ok && fromList(rs.X) && rs.Value != nil {
+				if o := objOf(info, rs.Value); o != nil {
+					elems[o] = true
+				}
+			}
+			return true
+		})
+		ast.Inspect(fi.Decl.Body, func(nd ast.Node) bool {
+			call, ok := nd.(*ast.CallExpr)
+			if !ok {
+				return true
+			}
+			fn := Callee(info, call)
+			if fn == nil || fn.Pkg() == nil || fn.Pkg() != up.Types {
+				return true
+			}
+			q := funcQName(fn)
+			for i, a := range call.Args {
+				whole := fromList(a)
+				elem := elems[objOf(info, a)]
+				if !whole && !elem {
+					continue
+				}
+				switch {
+				case unexclude[q]:
+					n++
+					key := strings.TrimPrefix(fi.Name, "internal/parser/utils.") + ":" + fn.Name() + " of on(...) labels#" + itoa(n)
+					okc := elem && guarded(fi, call, objOf(info, a))
+					c.Check(okc, rule, key, call.Pos(), "under CanHaveLabel(name)",
+						"`"+exprStr(call)+"` re-admits labels named by on(...) without asking whether the operand could have them: `sum without(a)(x) + on(a) sum without(a)(y)` is then believed to carry `a`, and an outer `and on(a)`/`* on(a)` against a side without `a` is reported as dead code although both sides lack the label and match")
+				default:
+					// a helper of the package that receives the list (or one name): follow its parameter
+					if hf := p.FuncOf(fn); hf != nil && hf != fi {
+						sig := fn.Type().(*types.Signature)
+						pi := i
+						if pi >= sig.Params().Len() {
+							pi = sig.Params().Len() - 1
+						}
+						if pi >= 0 {
+							visit(hf, sig.Params().At(pi), depth+1)
+						}
+					}
+				}
+			}
+			return true
+		})
+	}
+	pb := c.MustFunc(rule, "internal/parser/utils.parseBinOps")
+	if pb == nil {
+		return
+	}
+	visit(pb, nil, 0)
+	c.Check(n >= 1, rule, "parseBinOps:on(...) labels re-admitted somewhere", pb.Decl.Pos(), itoa(n), "no includeLabel fed from VectorMatching.MatchingLabels found")
 }
